@@ -195,7 +195,7 @@ func c10JudgeObjs(sp c10Spec, beforeTexts []string, cls string, afterTexts []str
 		detail = c10DiffText(c10CompareObjs(p.objs, after))
 	}
 	undecided := false
-	for _, m := range []c10Mode{{ListKeyRegex: true}} {
+	for _, m := range []c10Mode{{ImgTwice: true}, {ListKeyRegex: true}} {
 		if m.ImgTwice && len(sp.Images) == 0 {
 			continue
 		}
